@@ -129,7 +129,7 @@ Definition header_of (i : inst) : inst :=
    lines and changes, per line,
      - the terminator: LF, CR LF or a lone CR                                        (line-ending style)
      - the padding: arbitrary whitespace before and after the line                    (lead / trail)
-     - for ballot lines (lines that do not start with "#"): runs of U+0020 inserted between characters, but
+     - for ballot lines (lines whose first non-whitespace character is not "#"): runs of U+0020 inserted between characters, but
        never between two digits (i.e. not inside a number): gaps = the run length at each character boundary,
        boundary k being the one in front of the k-th character (a missing entry means 0; the entry of a
        boundary between two digits is ignored).
@@ -157,7 +157,8 @@ Fixpoint spread (prev : option N) (g : list nat) (s : text) : text :=
     (if gap_ok prev c then repeat 32%N (hd O g) else []) ++ c :: spread (Some c) (tl g) r
   end.
 
-Definition is_header_line (l : text) : bool := startswith (lit "#") l.
+(* a header line as every parser recognises it: line.strip().startswith("#") *)
+Definition is_header_line (l : text) : bool := startswith (lit "#") (strip l).
 
 Definition restyle_line (st : linestyle) (l : text) : text :=
   lead st ++ (if is_header_line l then l else spread None (gaps st) l) ++ trail st ++ eol_text (term st).
